@@ -81,7 +81,9 @@ def parse_parameters(buffer: bytes) -> list[bytes | list]:
             case b')':
                 if len(accumulator) < 2:
                     raise AtParsingError("close_paren without matching open_paren")
-                accumulator[-1].append(current)
+                # "()" is an empty list, not a list with one empty element
+                if current != b'' or accumulator[-1]:
+                    accumulator[-1].append(current)
                 current = accumulator.pop()
             case _:
                 current = token
